@@ -4,9 +4,9 @@ from __future__ import annotations
 import ast
 from typing import Dict, List, Optional
 
-from .. import memo
+from .. import memo, q
 from ..boolterm import HEADS, head_name
-from ..core import AnchorError, Ctx, FuncInfo, dotted, norm, walk_no_nested
+from ..core import AnchorError, Ctx, FuncInfo, dotted, guard_facts, norm, walk_no_nested
 from ..rewrite import check_arity, check_rewrite_equiv, check_total, single_bindings
 
 ID = "C04"
@@ -223,16 +223,7 @@ def check_custom_simplify(ctx: Ctx, fi: FuncInfo):
                 src = v.args[0].value
                 if isinstance(src, ast.Name) and src.id in binds:
                     src = binds[src.id]
-                ok = (
-                    isinstance(src, (ast.ListComp, ast.GeneratorExp))
-                    and len(src.generators) == 1
-                    and not src.generators[0].ifs
-                    and norm(src.generators[0].iter) == f"{p}.args"
-                    and isinstance(src.elt, ast.Call)
-                    and dotted(src.elt.func) == fi.name
-                    and len(src.elt.args) == 1
-                    and norm(src.elt.args[0]) == norm(src.generators[0].target)
-                )
+                ok = q.is_mapped_over(src, fi.name, f"{p}.args")
                 why = "" if ok else f"arguments `{norm(src)}` are not `[{fi.name}(a) for a in {p}.args]`"
             else:
                 why = "rebuild does not splat one argument list"
@@ -259,67 +250,90 @@ def _map_name(a) -> Optional[str]:
     return None
 
 
+def _is_ret_test(e, s: str) -> Optional[bool]:
+    """True / False when `e` says that the symbol s IS / IS NOT a return symbol, None when it is another test"""
+    t = norm(e).replace(" ", "").replace('"', "'")
+    pos = (f"{s}.name[0:4]=='_ret'", f"{s}.name[:4]=='_ret'", f"{s}.name.startswith('_ret')", f"'_ret'=={s}.name[0:4]", f"'_ret'=={s}.name[:4]")
+    neg = (f"{s}.name[0:4]!='_ret'", f"{s}.name[:4]!='_ret'", f"'_ret'!={s}.name[0:4]")
+    if t in pos:
+        return True
+    if t in neg:
+        return False
+    return None
+
+
+SIMPLIFIERS = ("custom_simplify_logic", "simplify_logic")
+
+
 def check_merge_expressions(ctx: Ctx, fi: FuncInfo):
+    """value flow through one iteration: the expression recorded in the map / appended to the result is the loop's
+    expression with the map of earlier definitions substituted into it (as a whole, simultaneously) and nothing
+    but simplifiers applied on top; it is recorded under the loop's own symbol; `_ret` symbols are kept, all
+    others are recorded for inlining; the list of kept definitions is returned"""
     p = fi.params[0]
     loop = _loop_over_param(fi, p)
     if not (isinstance(loop.target, ast.Tuple) and len(loop.target.elts) == 2 and all(isinstance(e, ast.Name) for e in loop.target.elts)):
         raise AnchorError(fi.short, "loop target is not (symbol, expression)")
     s, e = loop.target.elts[0].id, loop.target.elts[1].id
-    # (1) the first thing done to e is substitution of the map of earlier definitions
-    first = loop.body[0] if loop.body else None
-    sub_ok = (
-        isinstance(first, ast.Assign)
-        and isinstance(first.targets[0], ast.Name)
-        and first.targets[0].id == e
-        and isinstance(first.value, ast.Call)
-        and isinstance(first.value.func, ast.Attribute)
-        and first.value.func.attr in ("xreplace", "subs")
-        and isinstance(first.value.func.value, ast.Name)
-        and first.value.func.value.id == e
-        and len(first.value.args) == 1
-        and _map_name(first.value.args[0]) is not None
-    )
-    ctx.check(sub_ok, "RW-DEFS", fi, "inline earlier definitions first", "e = e.xreplace(emap) precedes every use", f"first statement of the loop is `{norm(first) if first else ''}`: the map of earlier definitions must be applied, as a whole, before anything else", first or loop)
-    emap = _map_name(first.value.args[0]) if sub_ok else None
-    if sub_ok:
-        call = first.value
-        simultaneous = call.func.attr == "xreplace" or any(k.arg == "simultaneous" and isinstance(k.value, ast.Constant) and k.value.value is True for k in call.keywords)
-        ctx.check(simultaneous, "RW-SUBST", fi, "inlining is a simultaneous substitution", "xreplace", "subs() with a mapping applies the pairs one after another: when an inlined definition mentions a symbol that was re-bound later (t = a; a = b; b = t) that symbol is substituted again inside it", call)
-    # (2) every iteration either records emap[s] = e or appends (s, e); nothing else consumes the pair
-    stores, appends = [], []
-    for n in ast.walk(loop):
-        if isinstance(n, ast.Assign) and isinstance(n.targets[0], ast.Subscript):
-            t = n.targets[0]
-            if isinstance(t.value, ast.Name) and t.value.id == emap:
-                stores.append((n, norm(t.slice) == s and isinstance(n.value, ast.Name) and n.value.id == e))
-        if isinstance(n, ast.Call) and isinstance(n.func, ast.Attribute) and n.func.attr == "append":
-            a = n.args[0] if n.args else None
-            good = isinstance(a, ast.Tuple) and len(a.elts) == 2 and norm(a.elts[0]) == s and norm(a.elts[1]) == e
-            appends.append((n, good, norm(n.func.value)))
-    ctx.check(len(stores) == 1 and stores[0][1], "RW-DEFS", fi, "intermediate recorded under its own symbol", f"{emap}[{s}] = {e}", f"map store is {[norm(x[0]) for x in stores]}", loop)
-    ctx.check(len(appends) == 1 and appends[0][1], "RW-DEFS", fi, "return definition keeps its symbol", f"append(({s}, {e}))", f"appended value is {[norm(x[0]) for x in appends]}", loop)
-    # (3) the split between the two is the `_ret` prefix of s.name and both sides are covered
-    ifs = [n for n in loop.body if isinstance(n, ast.If)]
-    good = False
-    if len(ifs) == 1 and ifs[0].orelse:
-        t = ifs[0].test
-        txt = norm(t)
-        good = "_ret" in txt and f"{s}.name" in txt
-        if good and stores and appends:
-            st_in_body = any(stores[0][0] is x for b in ifs[0].body for x in ast.walk(b))
-            ap_in_body = any(appends[0][0] is x for b in ifs[0].body for x in ast.walk(b))
-            neq = isinstance(t, ast.Compare) and isinstance(t.ops[0], ast.NotEq)
-            eq = isinstance(t, ast.Compare) and isinstance(t.ops[0], ast.Eq) or (isinstance(t, ast.Call) and "startswith" in txt)
-            if neq:
-                good = st_in_body and not ap_in_body
-            elif eq:
-                good = ap_in_body and not st_in_body
+    stores = [n for n in ast.walk(loop) if isinstance(n, ast.Assign) and isinstance(n.targets[0], ast.Subscript) and isinstance(n.targets[0].value, ast.Name)]
+    appends = [n for n in ast.walk(loop) if isinstance(n, ast.Call) and isinstance(n.func, ast.Attribute) and n.func.attr == "append" and isinstance(n.func.value, ast.Name)]
+    if len(stores) != 1 or len(appends) != 1:
+        ctx.undecided(fi.short, f"merge loop: {len(stores)} map stores and {len(appends)} appends (one of each expected)")
+        return
+    st, ap = stores[0], appends[0]
+    emap = st.targets[0].value.id
+    ap_arg = ap.args[0] if ap.args else None
+    if not (isinstance(ap_arg, ast.Tuple) and len(ap_arg.elts) == 2):
+        ctx.undecided(fi.short, "merge loop: the appended value is not a (symbol, expression) pair")
+        return
+    ap_stmt = q.enclosing_stmt(fi, ap)
+    v_store = q.value_at(loop.body, st, st.value)
+    v_app = q.value_at(loop.body, ap_stmt, ap_arg.elts[1])
+    k_store = q.value_at(loop.body, st, st.targets[0].slice)
+    k_app = q.value_at(loop.body, ap_stmt, ap_arg.elts[0])
+    if None in (v_store, v_app, k_store, k_app):
+        ctx.undecided(fi.short, "merge loop: a value on the way to the map store / append is assigned conditionally")
+        return
+    ctx.check(norm(k_store) == s, "RW-DEFS", fi, "intermediate recorded under its own symbol", f"{emap}[{s}] = ...", f"`{norm(st)}` records the definition under `{norm(k_store)}`, not under the symbol `{s}` it defines", st)
+    ctx.check(norm(k_app) == s, "RW-DEFS", fi, "return definition keeps its symbol", f"append(({s}, ...))", f"`{norm(ap)}` keeps the definition under `{norm(k_app)}`, not under its own symbol `{s}`", ap)
+    for role, v, node in (("recorded", v_store, st), ("kept", v_app, ap)):
+        subs = [c for c in ast.walk(v) if isinstance(c, ast.Call) and isinstance(c.func, ast.Attribute) and c.func.attr in ("xreplace", "subs")]
+        inl = [c for c in subs if len(c.args) == 1 and _map_name(c.args[0]) == emap and isinstance(c.func.value, ast.Name) and c.func.value.id == e]
+        raw_e = [n for n in ast.walk(v) if isinstance(n, ast.Name) and n.id == e and not any(n is c.func.value for c in inl)]
+        ctx.check(len(inl) == 1 and not raw_e, "RW-DEFS", fi, f"the {role} expression has the earlier definitions inlined first", norm(v)[:80], f"the {role} expression is `{norm(v)[:120]}`: the map of earlier definitions `{emap}` must be substituted into `{e}`, as a whole, before anything else uses it", node)
+        if len(inl) == 1:
+            call = inl[0]
+            simultaneous = call.func.attr == "xreplace" or any(k.arg == "simultaneous" and isinstance(k.value, ast.Constant) and k.value.value is True for k in call.keywords)
+            ctx.check(simultaneous, "RW-SUBST", fi, f"inlining is a simultaneous substitution ({role})", "xreplace", "subs() with a mapping applies the pairs one after another: when an inlined definition mentions a symbol that was re-bound later (t = a; a = b; b = t) that symbol is substituted again inside it", node)
+            # everything applied on top of the substitution is a simplifier
+            cur, wrappers = v, []
+            while cur is not call:
+                if isinstance(cur, ast.Call) and len(cur.args) == 1 and not cur.keywords and isinstance(cur.func, ast.Name):
+                    wrappers.append(cur.func.id)
+                    cur = cur.args[0]
+                else:
+                    wrappers.append(None)
+                    break
+            if None in wrappers:
+                ctx.undecided(fi.short, f"merge loop: the {role} expression `{norm(v)[:80]}` applies something other than unary simplifier calls on top of the substitution")
             else:
-                raise AnchorError(fi.short, f"`_ret` test `{txt}` in a form outside the tables")
-    ctx.check(good, "RW-DEFS", fi, "_ret definitions are kept, others inlined", "split on the `_ret` prefix; both branches present", "the _ret / intermediate split is not an if/else on the `_ret` prefix with store and append on the right sides", loop)
-    # (4) the function returns the appended list
+                ctx.check(all(w in SIMPLIFIERS for w in wrappers), "RW-DEFS", fi, f"only simplifiers are applied to the inlined expression ({role})", str(wrappers), f"`{norm(v)[:100]}` passes the inlined expression through {[w for w in wrappers if w not in SIMPLIFIERS]}, which is not one of the meaning-preserving simplifiers {SIMPLIFIERS}", node)
+    ctx.check(norm(v_store) == norm(v_app), "RW-DEFS", fi, "kept and recorded definitions are built the same way", "", f"recorded `{norm(v_store)[:80]}` vs kept `{norm(v_app)[:80]}`", loop)
+    # the split: _ret symbols are kept, the others recorded
+    def verdicts(node):
+        out = []
+        for ex, pol in guard_facts(fi, node):
+            if q.contains(loop, ex):
+                r = _is_ret_test(ex, s)
+                out.append(None if r is None else (r if pol else not r))
+        return out
+    vs, va = verdicts(st), verdicts(ap)
+    if None in vs or None in va or not vs or not va:
+        ctx.undecided(fi.short, f"merge loop: the split between kept and inlined definitions is not a test of the `_ret` prefix of {s}.name (store under {[norm(x) for x, _ in guard_facts(fi, st)]}, append under {[norm(x) for x, _ in guard_facts(fi, ap)]})")
+    else:
+        ctx.check(all(v_ is False for v_ in vs) and all(v_ is True for v_ in va), "RW-DEFS", fi, "_ret definitions are kept, others inlined", "split on the `_ret` prefix; both branches present", f"the map store runs when the symbol {'is' if vs[0] else 'is not'} a return symbol and the append when it {'is' if va[0] else 'is not'}: return definitions must be kept and only the others recorded for inlining", loop)
     rets = [n for n in walk_no_nested(fi.node) if isinstance(n, ast.Return)]
-    good = len(rets) == 1 and appends and isinstance(rets[0].value, ast.Name) and rets[0].value.id == appends[0][2]
+    good = len(rets) == 1 and isinstance(rets[0].value, ast.Name) and rets[0].value.id == ap.func.value.id
     ctx.check(bool(good), "RW-DEFS", fi, "returns the kept definitions", "returns the list the _ret definitions are appended to", "return value is not the list of kept definitions", rets[0] if rets else loop)
 
 
@@ -391,29 +405,32 @@ def check_profile_apply(ctx: Ctx, ci):
     loop = loops[0]
     ctx.check(norm(loop.iter) == "self.steps" and not loop.orelse, "RW-DEFS", fi, "all steps, in order", "for opt in self.steps", f"iterates `{norm(loop.iter)}`", loop)
     opt = norm(loop.target)
-    # transformer branch maps (sym, e) -> (sym, opt.visit(e))
-    lambdas = [n for n in ast.walk(loop) if isinstance(n, ast.Lambda)]
-    comps = [n for n in ast.walk(loop) if isinstance(n, (ast.ListComp,))]
-    good = False
-    detail = "no pairwise map found in the SympyTransformer branch"
-    for lam in lambdas:
-        a = lam.args.args[0].arg if lam.args.args else None
-        b = lam.body
-        if isinstance(b, ast.Tuple) and len(b.elts) == 2:
-            good = norm(b.elts[0]) == f"{a}[0]" and norm(b.elts[1]) == f"{opt}.visit({a}[1])"
-            detail = f"lambda body is `{norm(b)}`"
-    for c in comps:
-        b = c.elt
-        if isinstance(b, ast.Tuple) and len(b.elts) == 2 and isinstance(c.generators[0].target, ast.Tuple):
-            s, e = (norm(x) for x in c.generators[0].target.elts)
-            good = norm(b.elts[0]) == s and norm(b.elts[1]) == f"{opt}.visit({e})"
-            detail = f"comprehension element is `{norm(b)}`"
-    ctx.check(good, "RW-DEFS", fi, "transformer step keeps the defined symbol", "(sym, opt.visit(exp)) for every pair", detail, loop)
-    # both branches assign the running list, which is returned
-    assigns = [n for n in ast.walk(loop) if isinstance(n, ast.Assign) and isinstance(n.targets[0], ast.Name)]
+    # every value the running list takes inside the loop, with the condition it is taken under
+    alts = q.value_alternatives(fi, loop, p)
+    if not alts:
+        ctx.undecided(fi.short, f"the running definition list `{p}` is not re-bound in the loop over the steps")
+        return
+    n_tr = n_fn = 0
+    for v, conds, node in alts:
+        is_tr = [pol for t, pol in conds if norm(t).replace(" ", "") == f"isinstance({opt},SympyTransformer)"]
+        if len(is_tr) != 1 or len(conds) != 1:
+            ctx.undecided(fi.short, f"`{p} = {norm(v)[:60]}` is taken under {[(norm(t), pol) for t, pol in conds]}: not a split on isinstance({opt}, SympyTransformer) alone")
+            continue
+        if is_tr[0]:
+            n_tr += 1
+            pw = q.pairwise_visit(v, opt)
+            if pw is None:
+                ctx.undecided(fi.short, f"transformer step `{norm(v)[:80]}` is not a pairwise map over the definition list")
+            else:
+                src_ok = any(norm(x) == p for x in ast.walk(v) if isinstance(x, ast.Name))
+                ctx.check(pw and src_ok, "RW-DEFS", fi, "transformer step keeps the defined symbol", "(sym, opt.visit(exp)) for every pair", f"`{norm(v)[:120]}` does not map every (symbol, expression) of `{p}` to (symbol, {opt}.visit(expression))", node)
+        else:
+            n_fn += 1
+            ok = isinstance(v, ast.Call) and norm(v.func) == opt and [norm(x) for x in v.args] == [p] and not v.keywords
+            ctx.check(ok, "RW-DEFS", fi, "function step is applied to the running list", f"{opt}({p})", f"`{norm(v)[:80]}` is not the step applied to the running definition list", node)
     rets = [n for n in walk_no_nested(fi.node) if isinstance(n, ast.Return)]
-    good = len(rets) == 1 and isinstance(rets[0].value, ast.Name) and all(a.targets[0].id == rets[0].value.id for a in assigns) and len(assigns) >= 2 and rets[0].value.id == p
-    ctx.check(good, "RW-DEFS", fi, "steps are chained", "each step's result feeds the next and the last is returned", "the running definition list is not threaded through every step", rets[0] if rets else loop)
+    good = len(rets) == 1 and isinstance(rets[0].value, ast.Name) and rets[0].value.id == p and n_tr >= 1 and n_fn >= 1
+    ctx.check(good, "RW-DEFS", fi, "steps are chained", "each step's result feeds the next and the last is returned", "the running definition list is not threaded through every step and returned", rets[0] if rets else loop)
 
 
 def profile_steps(repo, name: str) -> List[str]:
